@@ -13,6 +13,8 @@ def outcomeSkel (o : Outcome (List FileSkel)) : String :=
   | .panic _ => "panic"
 
 def step (line : String) : String :=
+  -- raw source text is outside the model: nothing of the line is needed (it carries whole files in hex)
+  if line.startsWith "total.src " then "skip" else
   match parseLine line with
   | none => "bad-op"
   | some (op, args) =>
